@@ -64,7 +64,11 @@ func Malform(o Op, p *spb.AFTOperation) error {
 		}
 		return nil
 	case "badOpType":
+		// INVALID (0), or a number the enumeration does not define (proto3 enums are open: it arrives unchanged)
 		p.Op = spb.AFTOperation_INVALID
+		if o.ID%2 == 0 {
+			p.Op = spb.AFTOperation_Operation(4 + o.ID%5)
+		}
 		return nil
 	}
 	switch t := p.Entry.(type) {
